@@ -4,7 +4,8 @@ Two or three thread programs, each a sequence of rounds `activate own probe; cal
 deactivate` on the shared functions fa/fb, run under vlib.sched: the harness owns the
 schedule and places up to 3 (quick) / 5 (thorough) preemptions at generated switch points
 (instruction granularity inside push/pop/get/_apply/_tooler/_untooler/transform_for/overlay
-and proceed enter/exit, line granularity in the rest of the activation code).
+and proceed enter/exit, line granularity in the rest of the activation code and inside the functions
+under test, including the instrumented variants ptera compiles for them).
 
 Oracle: per thread, the events of every round and all return values equal the sequential
 reference (vlib.model_paths on that thread's own calls); after all threads joined every
@@ -24,8 +25,8 @@ from vlib.core import PropertyViolation, Recorder, hyp_search, violation_record,
 PROPERTY = "C08"
 RULE = (
     "case = 2-3 thread programs (1-2 rounds each of activate <spec> / 1-2 calls of a generated plan / deactivate; "
-    "7 probe specs with overlapping and disjoint capture sets incl. a total and an overridable one) x fresh or "
-    "long-lived function objects x schedule (<=3 quick / <=5 thorough preemptions at generated switch points, "
+    "7 probe specs with overlapping and disjoint capture sets incl. a total and an overridable one), every case on "
+    "its own fresh function objects, x schedule (<=3 quick / <=5 thorough preemptions at generated switch points, "
     "3/4 of them inside the critical instruction-level functions). evaluations = schedules executed (plus one "
     "unpreempted baseline per case). Non-trivial = >=1 realised preemption landed inside a critical function "
     "while another thread later ran a critical function on the same target; distinct by realised (switch point, "
@@ -104,7 +105,7 @@ def make_functions(fresh):
     return out
 
 
-def run_schedule(programs, fresh, preempt):
+def run_schedule(programs, fresh, preempt, by_label=None):
     """Returns (sched, per-thread results, post-problems, finished, errors)."""
     from ptera.probe import Probe, OverridableProbe
     from vlib import sched as SC
@@ -138,6 +139,8 @@ def run_schedule(programs, fresh, preempt):
         return run
 
     s = SC.Sched(len(programs), preempt)
+    if by_label is not None:
+        s.by_label = by_label
     s.labels = []
     orig_point = s.point
 
@@ -163,7 +166,17 @@ def run_schedule(programs, fresh, preempt):
     return s, results, problems, finished, errors
 
 
-def check_case(programs, fresh, raw_preempts, max_pre, rec=None):
+def label_schedule(s):
+    """The realised preemptions of a run as [(label, occurrence, target)] - what replay uses."""
+    out = []
+    for k, lab, a, b in s.trace:
+        occ = sum(1 for x in s.labels[:k] if x == lab)
+        out.append([list(lab), occ, b])
+    return out
+
+
+def check_case(programs, fresh, raw_preempts, max_pre, rec=None, by_label=None):
+    fresh = True  # every case works on its own function objects: no state shared between cases
     # programs: list (per thread) of rounds [(spec index, [roots, ...])], ids made unique per thread
     programs = [[(si, [renumber(r, 100 * (ti + 1) + 30 * ri + 10 * ci) for ci, r in enumerate(calls)])
                  for ri, (si, calls) in enumerate(rounds)] for ti, rounds in enumerate(programs)]
@@ -180,12 +193,19 @@ def check_case(programs, fresh, raw_preempts, max_pre, rec=None):
     labels = s0.labels
     K = len(labels)
     crit = [i for i, lab in enumerate(labels) if lab[0] in CRITICAL] or list(range(K))
+    calls = [i for i, lab in enumerate(labels) if lab[0] in ("fa", "fb", "fc", "_call")] or crit
     preempt = {}
     n = len(programs)
     for j, (r, tgt, anywhere) in enumerate(raw_preempts[:max_pre]):
-        pool = list(range(K)) if anywhere else crit
+        # 1/4 anywhere, 1/4 inside the (instrumented) functions under test, 1/2 in critical sections
+        pool = list(range(K)) if anywhere else (calls if (r // 7) % 3 == 0 else crit)
         preempt[pool[r % len(pool)]] = tgt % n
-    s, res, problems, finished, errors = run_schedule(programs, fresh, preempt)
+    bl = None
+    if by_label is not None:
+        bl = {((lab[0], lab[1]), occ): tgt for lab, occ, tgt in by_label}
+        preempt = {}
+    s, res, problems, finished, errors = run_schedule(programs, fresh, preempt, bl)
+    check_case.last_schedule = label_schedule(s)
     sched_desc = f"preemptions {[(k, lab, a, b) for k, lab, a, b in s.trace]} (requested {sorted(preempt.items())})"
     if not finished:
         raise PropertyViolation("deadlock", f"threads did not finish within 10 s under {sched_desc}\n{desc}")
@@ -221,10 +241,16 @@ def check_case(programs, fresh, raw_preempts, max_pre, rec=None):
 
 
 def replay(payload):
-    try:
-        check_case(payload["programs"], payload["fresh"], [tuple(p) for p in payload["preempts"]], payload["max_pre"])
-    except PropertyViolation as v:
-        return [{"clause": v.clause, "detail": v.detail}]
+    progs = [[(si, calls) for si, calls in rounds] for rounds in payload["programs"]]
+    attempts = []
+    if payload.get("schedule"):
+        attempts.append({"by_label": payload["schedule"]})
+    attempts.append({})
+    for kw in attempts:
+        try:
+            check_case(progs, True, [tuple(p) for p in payload["preempts"]], payload["max_pre"], **kw)
+        except PropertyViolation as v:
+            return [{"clause": v.clause, "detail": v.detail}]
     return []
 
 
@@ -271,8 +297,15 @@ def shard(cfg):
     res = rec.result()
     if v is not None:
         programs, fresh, pre, max_pre = v.case
-        res["violations"] = [violation_record(PROPERTY, v, {"programs": programs, "fresh": fresh,
-                                                            "preempts": [list(p) for p in pre], "max_pre": max_pre})]
+        # re-run the shrunk case once more to record its realised schedule by label
+        sched = None
+        try:
+            check_case(programs, True, pre, max_pre)
+        except PropertyViolation:
+            sched = getattr(check_case, "last_schedule", None)
+        res["violations"] = [violation_record(PROPERTY, v, {"programs": programs, "fresh": True,
+                                                            "preempts": [list(p) for p in pre], "max_pre": max_pre,
+                                                            "schedule": sched})]
     if herr:
         res["harness_errors"] = [herr]
     return res
